@@ -80,8 +80,16 @@ def slow_cases():
             yield dict(kind="game", game=g, prune=prune, allow_slow=True)
 
 
+def stale_cases():
+    for g in games.stale_zero_games():
+        for prune in (True, False):
+            yield dict(kind="game", game=g, prune=prune)
+
+
 def phases(tier):
     return [
+        Phase("stale-zero-player-one-states", enum=stale_cases,
+              note="a Player 1 state reports exactly 0 while its successors report masses around the 6th decimal"),
         Phase("slow-rewarded-loops", enum=slow_cases,
               note="reach-tied branches whose rewards only separate after 10^3..10^5 sweeps"),
         Phase("games-exact-sets", strategy=lambda: game_cases(9 if tier == "quick" else 12), examples=(1600, 60000)),
